@@ -109,6 +109,16 @@ theorem generated_draw_ranges :
 theorem generated_join_waits_for_send_loop :
     (Generated.joinTrace.takeWhile (fun s => s.1 == "join")).contains ("join", "send None") = true := by decide
 
+/-- life cycle: whatever sequence of `start` / `stop` / `publish_service` / `clear_service` calls is made on a node, every Hello
+    and Bye is handed to a RUNNING networking thread (which transmits it 1 + repeat times) - never to one that was stopped
+    before and would drop it -/
+theorem messages_reach_a_running_thread (ops : List Sdc.UdpLife.Op) :
+    ∀ r ∈ Sdc.UdpLife.run {} ops, ∀ l, r = some l → ∀ b ∈ l, b = true :=
+  Sdc.UdpLife.run_hands {} ops Sdc.UdpLife.ok_init
+
+example : Sdc.UdpLife.run {} [.start, .publish 1, .stop, .start, .publish 2, .stop] =
+    [some [], some [true], some [true], some [], some [true], some [true]] := by decide
+
 /-- non-vacuity: the multicast set with a concrete draw -/
 example : schedule Generated.multicast 17 120 = [17, 137, 377, 857, 1357] := by decide
 
